@@ -7,6 +7,7 @@ import Cuke.Driver.Attempt
 import Cuke.Driver.Sched
 import Cuke.Driver.Outline
 import Cuke.Driver.Norm
+import Cuke.Driver.Glue
 /-! `cuke-driver`: one request per line on stdin, one response per line on stdout. -/
 open Cuke Cuke.Wire Cuke.Driver
 
@@ -27,10 +28,14 @@ def dispatch (line : String) : String :=
       | "outline.expand" => handleOutlineExpand args
       | "norm.run" => handleNormRun args
       | "mon.c11" => handleMonC11 args
+      | "glue.args" => handleGlueArgs args
+      | "lit.match" => handleLitMatch args
+      | "zoo.reg" => handleZooReg args
       | "mon.c10" => handleMonC10 args
       | "harness.ended" => some "ok"
       | "mon.c01" => handleMonC01 args
       | "mon.c12" => handleMonC12 args
+      | "mon.c20" => handleMonC20 args
       | _ => none
     match r with
     | some s => s
